@@ -26,7 +26,8 @@ rule = ("scripts = 'n begin', node ops, 'n end' (destroy everything, every byte 
         "1..300 bytes (every length around 20 and 212..218) on nodes made for the name ('new') and on nodes of the smallest "
         "size named afterwards ('newsmall', name stored outside the node), cloned alone/as tree/as list; every state of "
         "stream 1 also gets mpt_node_parse with an unknown limits character, with a syntactically broken input (both refused: "
-        "nothing may change) and with an empty input (children replaced by nothing); non-trivial = a node with a grandchild existed at some point of the history "
+        "nothing may change) and with an empty input (children replaced by nothing); stream 6: every ordered tree of 6 and 7 "
+        "(thorough: 8) nodes, 'relink x scramble' (all parent/predecessor links below x made wrong) for every inner node x; non-trivial = a node with a grandchild existed at some point of the history "
         "(seen in the code's own walk), counted per distinct script")
 assumptions = [
     "calls respect the GNode-style preconditions of the insert functions: the inserted node is a root without "
@@ -38,7 +39,7 @@ assumptions = [
     "call (first element that stayed, or NULL) is part of the compared verdict (the model does not store the caller's "
     "variable, its line carries the specification's value)",
     "mpt_gnode_swap is called with two nodes none of which lies below the other; mpt_gnode_relink is called on sound "
-    "structures and ('relink x scramble') after the drivers wiped every parent/predecessor link below the node",
+    "structures and ('relink x scramble') after the drivers pointed every parent/predecessor link below the node to the node itself",
     "malloc fails only where the scripts inject it ('n fail k' before a clone op); the model decides refusal by the "
     "number of allocations of the clone (value, node, name longer than the node's inline space)",
     "node names are unnamed or short UTF-8 texts without NUL (identifier comparison = equality of names); "
@@ -505,6 +506,34 @@ def _stream_names(tier):
     return out
 
 
+def _shapes(n):
+    """all ordered trees with n nodes in pre-order numbering: parent of node i is a node on the rightmost path of 0..i-1"""
+    def rec(i, parents, path):
+        if i == n:
+            yield list(parents)
+            return
+        for k in range(len(path)):
+            yield from rec(i + 1, parents + [path[k]], path[:k + 1] + [i])
+    yield from rec(1, [], [0])
+
+
+def _stream_relink(tier):
+    """mpt_gnode_relink on every ordered tree of 6 and 7 (thorough: 8) nodes: for every node with children all links
+    below it are made wrong, relink must restore them (the walk after each op checks every link)"""
+    out = []
+    for n in ((6, 7) if tier == "quick" else (6, 7, 8)):
+        for k, par in enumerate(_shapes(n)):
+            lines = ["n begin"] + ["n new %s -" % "abc"[i % 3] for i in range(n)]
+            for i, p in enumerate(par, 1):
+                lines.append("n insert %d 0 %d" % (p, i))
+            inner = sorted(set(par))
+            for x in inner:
+                lines.append("n relink %d scramble" % x)
+            lines.append("n relink 0")
+            out.append(("relink:%d/%d" % (n, k), lines + ["n end"]))
+    return out
+
+
 def _stream_fail(tier):
     """allocation failure at every malloc of the clone ops (`n fail k`): refused, nothing changed, nothing leaked"""
     out = []
@@ -526,7 +555,7 @@ def _stream_fail(tier):
 
 
 def scripts(tier, seed, scale=1):
-    out = _stream1(tier) + _stream2(tier) + _stream_fail(tier) + _stream_names(tier)
+    out = _stream1(tier) + _stream2(tier) + _stream_fail(tier) + _stream_names(tier) + _stream_relink(tier)
     nrand = (400 if tier == "quick" else 6000) * scale
     r = gen.rng(id, tier, seed, "random")
     for k in range(nrand):
